@@ -4,6 +4,7 @@
 //   EliasFano : segment keys; per query the result (index, value) of the private predecessor search
 //   Compressed: per level keys and decoded intercepts (tier B), the result only at tier A
 #include "rec_common.hpp"
+#include <omp.h>
 #include "access.hpp"
 #include "static_common.hpp"
 
@@ -38,10 +39,11 @@ struct VPlan {
     std::vector<std::string> tags;
     uint64_t seed;
     std::vector<long long> explicit_offsets;
+    int chunks = 0;          // > 1: the first-level segmentation is forced into this many chunks (hook H1); < 0: the library chunks by itself into -chunks
 };
 
 template<typename K>
-std::vector<K> make_queries(const std::vector<K> &data, Rng &rng, size_t budget) {
+std::vector<K> make_queries(const std::vector<K> &data, Rng &rng, size_t budget, int chunks = 0) {
     using L = std::numeric_limits<K>;
     std::vector<K> queries;
     const size_t n = data.size();
@@ -54,6 +56,9 @@ std::vector<K> make_queries(const std::vector<K> &data, Rng &rng, size_t budget)
     std::vector<size_t> picks;
     if (firsts.size() <= budget) picks = firsts;
     else for (size_t j = 0; j < budget; ++j) picks.push_back(firsts[rng.below(firsts.size())]);
+    if (chunks > 1 && n / (size_t) chunks > 0)      // every key next to a chunk boundary
+        for (size_t b = n / (size_t) chunks; b < n; b += n / (size_t) chunks)
+            for (long long d = -2; d <= 1; ++d) if ((long long) b + d >= 0 && b + d < n) picks.push_back(size_t(b + d));
     for (size_t i : picks) {
         add((Wide<K>) data[i]); add((Wide<K>) data[i] + 1); add((Wide<K>) data[i] - 1);
         size_t nx = std::upper_bound(data.begin(), data.end(), data[i]) - data.begin();
@@ -126,18 +131,21 @@ void run_bucketing(const VPlan &pl) {
     using P = BucketingProbe<K, Eps, T, Bits>;
     Rng rng(pl.seed);
     Out &out = shard_file(x);
-    std::vector<long long> off = pl.explicit_offsets.empty() ? gen_offsets(pl.kind, pl.n, Eps, rng) : pl.explicit_offsets;
+    std::vector<long long> off = pl.explicit_offsets.empty() ? gen_offsets(pl.kind, pl.n, Eps, rng, std::abs(pl.chunks) > 1 ? (size_t) std::abs(pl.chunks) : 0) : pl.explicit_offsets;
     bool wide = false;
     std::vector<K> data = place<K>(off, pl.where, rng, wide);
     const size_t n = data.size();
     std::unique_ptr<P> idx;
+    pgm::verif::forced_parallelism = pl.chunks > 1 ? pl.chunks : 0;
+    pgm::verif::forced_min_n = data.size();
     std::string res = outcome([&] { idx.reset(new P(data.begin(), data.end())); });
-    auto queries = make_queries<K>(data, rng, n <= 40 ? n : 40);
+    pgm::verif::forced_parallelism = 0;
+    auto queries = make_queries<K>(data, rng, n <= 40 ? n : 40, std::abs(pl.chunks));
     std::vector<K> extra;
     if (idx) for (auto &s : idx->segs()) extra.push_back(s.key);
     auto nm = make_norm<K>(data, queries, wide, extra);
     out.begin("Reset").num("x", x).str("cls", "Bucketing").str("prop", "C09").str("K", type_name<K>()).str("F", "f32")
-        .num("eps", Eps).num("epsrec", 0).str("route", "bucket").str("norm", nm.offset ? "offset" : "rank").num("chunks", 1)
+        .num("eps", Eps).num("epsrec", 0).str("route", "bucket").str("norm", nm.offset ? "offset" : "rank").num("chunks", std::abs(pl.chunks) > 1 ? std::abs(pl.chunks) : 1)
         .num("n", (long long) n).num("sent", nm((Wide<K>) Norm<K>::sentinel())).num("T", T).num("bits", Bits)
         .str("gen", pl.kind).raw("tags", jstrs(pl.tags)).num("seed", (long long) (pl.seed & 0x7fffffff)).end();
     std::vector<long long> nd;
@@ -179,23 +187,28 @@ void run_eliasfano(const VPlan &pl) {
     using P = pgm::EliasFanoPGMIndex<K, Eps>;
     Rng rng(pl.seed);
     Out &out = shard_file(x);
-    std::vector<long long> off = pl.explicit_offsets.empty() ? gen_offsets(pl.kind, pl.n, Eps, rng) : pl.explicit_offsets;
+    std::vector<long long> off = pl.explicit_offsets.empty() ? gen_offsets(pl.kind, pl.n, Eps, rng, std::abs(pl.chunks) > 1 ? (size_t) std::abs(pl.chunks) : 0) : pl.explicit_offsets;
     bool wide = false;
     std::vector<K> data = place<K>(off, pl.where, rng, wide);
     const size_t n = data.size();
     std::unique_ptr<P> idx;
+    pgm::verif::forced_parallelism = pl.chunks > 1 ? pl.chunks : 0;
+    pgm::verif::forced_min_n = data.size();
     std::string res = outcome([&] { idx.reset(new P(data.begin(), data.end())); });
-    auto queries = make_queries<K>(data, rng, n <= 40 ? n : 40);
+    pgm::verif::forced_parallelism = 0;
+    auto queries = make_queries<K>(data, rng, n <= 40 ? n : 40, std::abs(pl.chunks));
     // the segment keys, as the one-level PGMIndex builds them (the class keeps them only in Elias-Fano coded form)
     std::vector<K> skeys;
     {
         struct OneLevel : pgm::PGMIndex<K, Eps, 0, float> { using pgm::PGMIndex<K, Eps, 0, float>::PGMIndex; const auto &segs() const { return this->segments; } };
+        pgm::verif::forced_parallelism = pl.chunks > 1 ? pl.chunks : 0;     // chunked exactly as the index above was
         OneLevel ol(data.begin(), data.end());
+        pgm::verif::forced_parallelism = 0;
         for (auto &s : ol.segs()) skeys.push_back(s.key);
     }
     auto nm = make_norm<K>(data, queries, wide, skeys);
     out.begin("Reset").num("x", x).str("cls", "EliasFano").str("prop", "C10").str("K", type_name<K>()).str("F", "f32")
-        .num("eps", Eps).num("epsrec", 0).str("route", "eliasfano").str("norm", nm.offset ? "offset" : "rank").num("chunks", 1)
+        .num("eps", Eps).num("epsrec", 0).str("route", "eliasfano").str("norm", nm.offset ? "offset" : "rank").num("chunks", std::abs(pl.chunks) > 1 ? std::abs(pl.chunks) : 1)
         .num("n", (long long) n).num("sent", nm((Wide<K>) Norm<K>::sentinel())).num("T", 0).num("bits", 0)
         .str("gen", pl.kind).raw("tags", jstrs(pl.tags)).num("seed", (long long) (pl.seed & 0x7fffffff)).end();
     std::vector<long long> nd;
@@ -234,20 +247,23 @@ void run_compressed(const VPlan &pl) {
     using P = pgm::CompressedPGMIndex<K, Eps, EpsRec>;
     Rng rng(pl.seed);
     Out &out = shard_file(x);
-    std::vector<long long> off = pl.explicit_offsets.empty() ? gen_offsets(pl.kind, pl.n, Eps, rng) : pl.explicit_offsets;
+    std::vector<long long> off = pl.explicit_offsets.empty() ? gen_offsets(pl.kind, pl.n, Eps, rng, std::abs(pl.chunks) > 1 ? (size_t) std::abs(pl.chunks) : 0) : pl.explicit_offsets;
     bool wide = false;
     std::vector<K> data = place<K>(off, pl.where, rng, wide);
     const size_t n = data.size();
     std::unique_ptr<P> idx;
+    pgm::verif::forced_parallelism = pl.chunks > 1 ? pl.chunks : 0;
+    pgm::verif::forced_min_n = data.size();
     std::string res = outcome([&] { idx.reset(new P(data.begin(), data.end())); });
-    auto queries = make_queries<K>(data, rng, n <= 40 ? n : 40);
+    pgm::verif::forced_parallelism = 0;
+    auto queries = make_queries<K>(data, rng, n <= 40 ? n : 40, std::abs(pl.chunks));
     std::vector<K> extra;
     if (idx) for (auto &lv : Access::clevels(*idx)) for (auto k : lv.keys) extra.push_back(k);
     auto nm = make_norm<K>(data, queries, wide, extra);
     size_t threshold = 8 * 64 / sizeof(K);
     const char *route = EpsRec == 0 ? "binary_one_level" : EpsRec <= threshold ? "linear" : "binary_window";
     out.begin("Reset").num("x", x).str("cls", "Compressed").str("prop", "C08").str("K", type_name<K>()).str("F", "f32")
-        .num("eps", Eps).num("epsrec", EpsRec).str("route", route).str("norm", nm.offset ? "offset" : "rank").num("chunks", 1)
+        .num("eps", Eps).num("epsrec", EpsRec).str("route", route).str("norm", nm.offset ? "offset" : "rank").num("chunks", std::abs(pl.chunks) > 1 ? std::abs(pl.chunks) : 1)
         .num("n", (long long) n).num("sent", nm((Wide<K>) Norm<K>::sentinel())).num("T", 0).num("bits", 0)
         .str("gen", pl.kind).raw("tags", jstrs(pl.tags)).num("seed", (long long) (pl.seed & 0x7fffffff)).end();
     std::vector<long long> nd;
@@ -290,7 +306,7 @@ static void all_arrays(size_t U, size_t N, std::vector<long long> &cur, const st
 struct Plan { std::string tier; uint64_t seed; };
 
 template<typename F>
-void drive(const Plan &p, uint64_t salt, int exhaustive_level, size_t eps, bool small_type, F &&run) {
+void drive(const Plan &p, uint64_t salt, int exhaustive_level, size_t eps, bool small_type, F &&run, bool tiny_chunks_ok = false) {
     Rng rng(p.seed ^ salt);
     bool quick = p.tier == "quick";
     if (exhaustive_level > 0) {
@@ -298,10 +314,30 @@ void drive(const Plan &p, uint64_t salt, int exhaustive_level, size_t eps, bool 
         if (!quick) { U += 2; N += 2; }
         std::vector<long long> cur;
         int wc = 0;
-        all_arrays(U, N, cur, [&](const std::vector<long long> &a) { run(VPlan{"exhaustive", a.size(), wc++ % 3, {"exhaustive"}, rng.next(), a}); });
+        all_arrays(U, N, cur, [&](const std::vector<long long> &a) {
+            run(VPlan{"exhaustive", a.size(), wc++ % 3, {"exhaustive"}, rng.next(), a});
+            // the same array with its first level built in 2 or 3 chunks (Bucketing / Elias-Fano: PGMIndex::build); chunks of one or
+            // two elements cannot occur in the library (a chunk has at least 2^15 / 20 elements), so classes whose encoding
+            // relies on segments being far apart in rank (Compressed: strictly increasing stored intercepts) are excluded
+            if (tiny_chunks_ok && a.size() >= 4 && wc % 2 == 0) run(VPlan{"exhaustive", a.size(), wc % 3, {"exhaustive", "forced_chunks"}, rng.next(), a, 2 + (wc / 2) % 2});
+        });
     }
     const std::vector<std::string> kinds = {"runs", "sawtooth", "collinear", "steps", "random"};
     int reps = quick ? 1 : 4;
+    // runs of duplicates that end at, start at or straddle the chunk boundaries of a forced chunked build
+    // (chunks of at least 2 Epsilon + 6 elements: segments of different chunks stay apart in rank, as in the library)
+    for (int rep = 0; rep < 2 * reps && !small_type && eps <= 32; ++rep)
+        for (int chunks = 2; chunks <= 5; ++chunks) {
+            int where = std::vector<int>{0, 1, 2, 5}[(size_t) (rep + chunks) % 4];
+            size_t n = (size_t) chunks * (2 * eps + 6 + rng.below(60)) + rng.below(3);
+            run(VPlan{"seams", n, where, {"seams", "forced_chunks"}, rng.next(), {}, chunks});
+        }
+    // and the library's own chunking: at least 2^15 elements, threads from the environment
+    if (!small_type && (salt % 4 == 3 || !quick)) {
+        size_t n = 32768 + rng.below(9000);
+        int real = std::min(std::min(omp_get_num_procs(), omp_get_max_threads()), 20);     // as make_segmentation_par computes it
+        run(VPlan{"seams", n, (int) rng.below(3), {"seams", "real_chunked"}, rng.next(), {}, -real});   // negative: nothing is forced
+    }
     for (int rep = 0; rep < reps; ++rep)
         for (auto &kind : kinds)
             for (int where = 0; where < 6; ++where) {
@@ -357,28 +393,28 @@ int main(int argc, char **argv) {
     drive_long_levels(p, 24, 1500, 4000, [](const VPlan &pl) { run_compressed<uint32_t, 1, 129>(pl); });
     drive_long_levels(p, 25, 700, 2500, [](const VPlan &pl) { run_compressed<uint64_t, 2, 8>(pl); });
 #elif PART == 1  // Bucketing
-    drive(p, 31, 2, 1, false, [](const VPlan &pl) { run_bucketing<uint32_t, 1, 4, 32>(pl); });
-    drive(p, 32, 1, 1, false, [](const VPlan &pl) { run_bucketing<uint32_t, 1, 3, 0>(pl); });
-    drive(p, 33, 1, 2, false, [](const VPlan &pl) { run_bucketing<uint32_t, 2, 2, 0>(pl); });
-    drive(p, 34, 0, 4, false, [](const VPlan &pl) { run_bucketing<uint32_t, 4, 128, 32>(pl); });
-    drive(p, 35, 0, 8, false, [](const VPlan &pl) { run_bucketing<uint32_t, 8, 100, 32>(pl); });
-    drive(p, 36, 0, 8, false, [](const VPlan &pl) { run_bucketing<uint32_t, 8, 550, 0>(pl); });
-    drive(p, 37, 1, 2, false, [](const VPlan &pl) { run_bucketing<uint64_t, 2, 16, 0>(pl); });
-    drive(p, 38, 0, 16, false, [](const VPlan &pl) { run_bucketing<uint64_t, 16, 4096, 32>(pl); });
-    drive(p, 39, 1, 1, true, [](const VPlan &pl) { run_bucketing<uint8_t, 1, 4, 0>(pl); });
-    drive(p, 40, 1, 2, true, [](const VPlan &pl) { run_bucketing<uint8_t, 2, 100, 32>(pl); });
-    drive(p, 41, 1, 1, true, [](const VPlan &pl) { run_bucketing<uint16_t, 1, 5, 0>(pl); });
-    drive(p, 42, 0, 128, false, [](const VPlan &pl) { run_bucketing<uint64_t, 128, 3, 32>(pl); });
+    drive(p, 31, 2, 1, false, [](const VPlan &pl) { run_bucketing<uint32_t, 1, 4, 32>(pl); }, true);
+    drive(p, 32, 1, 1, false, [](const VPlan &pl) { run_bucketing<uint32_t, 1, 3, 0>(pl); }, true);
+    drive(p, 33, 1, 2, false, [](const VPlan &pl) { run_bucketing<uint32_t, 2, 2, 0>(pl); }, true);
+    drive(p, 34, 0, 4, false, [](const VPlan &pl) { run_bucketing<uint32_t, 4, 128, 32>(pl); }, true);
+    drive(p, 35, 0, 8, false, [](const VPlan &pl) { run_bucketing<uint32_t, 8, 100, 32>(pl); }, true);
+    drive(p, 36, 0, 8, false, [](const VPlan &pl) { run_bucketing<uint32_t, 8, 550, 0>(pl); }, true);
+    drive(p, 37, 1, 2, false, [](const VPlan &pl) { run_bucketing<uint64_t, 2, 16, 0>(pl); }, true);
+    drive(p, 38, 0, 16, false, [](const VPlan &pl) { run_bucketing<uint64_t, 16, 4096, 32>(pl); }, true);
+    drive(p, 39, 1, 1, true, [](const VPlan &pl) { run_bucketing<uint8_t, 1, 4, 0>(pl); }, true);
+    drive(p, 40, 1, 2, true, [](const VPlan &pl) { run_bucketing<uint8_t, 2, 100, 32>(pl); }, true);
+    drive(p, 41, 1, 1, true, [](const VPlan &pl) { run_bucketing<uint16_t, 1, 5, 0>(pl); }, true);
+    drive(p, 42, 0, 128, false, [](const VPlan &pl) { run_bucketing<uint64_t, 128, 3, 32>(pl); }, true);
 #else            // Elias-Fano
-    drive(p, 51, 2, 1, false, [](const VPlan &pl) { run_eliasfano<uint32_t, 1>(pl); });
-    drive(p, 52, 1, 2, false, [](const VPlan &pl) { run_eliasfano<uint32_t, 2>(pl); });
-    drive(p, 53, 0, 8, false, [](const VPlan &pl) { run_eliasfano<uint32_t, 8>(pl); });
-    drive(p, 54, 0, 32, false, [](const VPlan &pl) { run_eliasfano<uint32_t, 32>(pl); });
-    drive(p, 55, 0, 128, false, [](const VPlan &pl) { run_eliasfano<uint32_t, 128>(pl); });
-    drive(p, 56, 2, 1, false, [](const VPlan &pl) { run_eliasfano<uint64_t, 1>(pl); });
-    drive(p, 57, 0, 4, false, [](const VPlan &pl) { run_eliasfano<uint64_t, 4>(pl); });
-    drive(p, 58, 1, 1, true, [](const VPlan &pl) { run_eliasfano<uint16_t, 1>(pl); });
-    drive(p, 59, 0, 3, true, [](const VPlan &pl) { run_eliasfano<uint16_t, 3>(pl); });
+    drive(p, 51, 2, 1, false, [](const VPlan &pl) { run_eliasfano<uint32_t, 1>(pl); }, true);
+    drive(p, 52, 1, 2, false, [](const VPlan &pl) { run_eliasfano<uint32_t, 2>(pl); }, true);
+    drive(p, 53, 0, 8, false, [](const VPlan &pl) { run_eliasfano<uint32_t, 8>(pl); }, true);
+    drive(p, 54, 0, 32, false, [](const VPlan &pl) { run_eliasfano<uint32_t, 32>(pl); }, true);
+    drive(p, 55, 0, 128, false, [](const VPlan &pl) { run_eliasfano<uint32_t, 128>(pl); }, true);
+    drive(p, 56, 2, 1, false, [](const VPlan &pl) { run_eliasfano<uint64_t, 1>(pl); }, true);
+    drive(p, 57, 0, 4, false, [](const VPlan &pl) { run_eliasfano<uint64_t, 4>(pl); }, true);
+    drive(p, 58, 1, 1, true, [](const VPlan &pl) { run_eliasfano<uint16_t, 1>(pl); }, true);
+    drive(p, 59, 0, 3, true, [](const VPlan &pl) { run_eliasfano<uint16_t, 3>(pl); }, true);
 #endif
     for (auto &f : g_files) f->flush();
     return 0;
